@@ -15,7 +15,53 @@ sys.path.insert(0, os.path.join(HERE, ".deps"))
 ALL = [f"C{i:02d}" for i in range(1, 21)]
 
 # id -> (technique, level text, level note, design section)
+PBT = "exploration by generated-input search (Hypothesis) against an explicit oracle"
 CLAIMED = {
+    "C01": ("Hypothesis-generated call histories on one WallGoManager; oracles: sign bracket of the re-evaluated "
+            "pressure (solver protocol and grid-adapted), window, T30 identity on reported profiles, re-convergence, "
+            "bit-identical replay against a fresh manager in a fresh process",
+            "Every generated history (model point x configuration x 3-9 public calls) satisfied labelling, window, bracket, "
+            "attached-data and history-independence oracles, except for the listed known finding.",
+            "Polynomial model families (Z2x2, Cubic1); pressure re-evaluated through the public EOM; non-conserving "
+            "mode excluded from the bracket oracle (pressure is guess-dependent there).", "DESIGN.md 3/C01"),
+    "C07": ("Hypothesis metamorphic pairs: unit factor s vs 1 on the public pipeline in fresh processes, allowance from a "
+            "third run at tightened tolerances (two-level forward bound) plus conditioning-aware floors",
+            "Dimensionless outputs (alpha_n, Psi_n, vJ, vMin, LTE and wall velocity, widths*Tn, offsets, T+-/Tn) were "
+            "invariant within solver-tolerance-derived allowances for every generated (model, s, setting).",
+            "Exactly homogeneous polynomial models only; alpha_n >= 2e-3 by construction.", "DESIGN.md 3/C07"),
+    "C08": ("Hypothesis metamorphic pairs: affine relabelling u=P(Sx+c) vs original fields, allowance from a third run at "
+            "tightened tolerances",
+            "vJ, alpha_n, LTE/wall velocity, T+-, multiset of widths and wall-centre separations invariant and phase "
+            "locations mapped affinely for every generated relabelling.",
+            "Affine relabellings (permutation, reflection, translation) of 1- and 2-field models.", "DESIGN.md 3/C08"),
+    "C12": ("Hypothesis over backgrounds x particles x function-space collision kernels x bases x modes; oracles: "
+            "backward error of the linear solve, zero solution, cross-basis equality, FD->spectral convergence, "
+            "independent collocation reference",
+            "Residual, homogeneous-zero, basis independence of delta f and Deltas, FD convergence per amplitude class and "
+            "background immutability held on all generated cases.",
+            "Synthetic collision kernels defined in function space by the harness.", "DESIGN.md 3/C12"),
+    "C13": ("Hypothesis over grids x mass profiles x deviations in the Gauss-Chebyshev-Lobatto exactness family; "
+            "closed-form Chebyshev moments and direct boosted T^{mu nu} integrals as oracle",
+            "All four moments equal the closed-form integrals to rounding; stress tensor equals the direct momentum "
+            "integral; linearity.", "deltaToTmunu is called on a minimal EOM object carrying only the particle list.",
+            "DESIGN.md 3/C13"),
+    "C14": ("Hypothesis-generated load histories with injected faults on synthetic HDF5 directories; oracles: stored "
+            "numbers bit-equal, function-space action under basis change and interpolation (harness interpolant), "
+            "per-pair independence, fault model",
+            "Every generated history of loads (1-3 particles, all basis/size combinations, fault patterns) satisfied the "
+            "stored-bits, action, independence and fault-atomicity oracles.",
+            "Fault list as in the property (missing files, oversize target, size/basis mismatch); corrupt HDF5 not generated.",
+            "DESIGN.md 3/C14"),
+    "C16": ("exhaustive enumeration of the (M,N,direction,endpoints,basis) lattice on identity coefficient matrices + "
+            "Hypothesis over rank 1-4 arrays; numpy.polynomial Chebyshev algebra as oracle",
+            "changeBasis, evaluate, derivative, integrate, matrix, derivMatrix agree with the independent reference on the "
+            "complete operator of every enumerated configuration and on generated multi-axis polynomials.",
+            "Rounding bound with computed condition numbers.", "DESIGN.md 3/C16"),
+    "C17": ("Hypothesis RuleBasedStateMachine over rescale histories + @given; oracles: monotonicity with measured rounding "
+            "noise, window integral of the reported Jacobian, inverse map, centre slope, rescale-vs-rebuild",
+            "Every reachable grid state satisfied all map/Jacobian/inverse/rebuild oracles.",
+            "Probes |chi| <= 1-2^-20; tolerance of the inverse includes the measured rounding noise of the forward map.",
+            "DESIGN.md 3/C17"),
     "C19": (
         "exhaustive exact-rational enumeration of stencil tables + Hypothesis @given over "
         "polynomials/points/steps/bounds/shapes/axes with exact-derivative oracle and call recorder",
